@@ -20,6 +20,13 @@ package coq
 //@   may_reject
 //@   noframe
 
+// A Binding destructures at most four names: the translator only builds wider tuples through
+// defineStmt, which rejects more than four results (postcondition proved there under C02/C07).
+//@ func (Binding).AddTo
+//@   trusted_requires [bindings with more than four names are rejected by the translator (defineStmt)] len(b.Names) <= 4
+//@   may_reject
+//@   noframe
+
 // ---- header and import paths (C08) -------------------------------------------------------------
 // cpath is the statement's path mapping: '.' and '-' become '_' (the two single-character
 // replacements, in either order); slashdot replaces '/' by '.'. path.Dir/Base/filepath.Join and
